@@ -1,51 +1,22 @@
 /-
   Files with sections and NO section-name string table (gABI, `e_shstrndx`: "If the file has no
   section name string table, this member holds the value SHN_UNDEF").  Such an image is well formed;
-  its sections have no names.  `Spec.ElfDesc.wf`/`wfZ` do not cover it (`namesOk` asks for the names
-  in the body of section `e_shstrndx`), and the library does not report it as encoded: it takes
-  section 0 for the name table and reads every "name" from file offset `sh_offset[0] + sh_name`,
-  i.e. from the ELF header (`'\x7fELF\x01\x01\x01'` for `sh_name` = 0) — the known finding
-  `no-name-table` of C01.  This file defines the class, for the driver to recognise it; no theorem
-  covers it.
+  its sections have no names: `Spec.ElfDesc.wf`/`wfZ` cover it (`namesOk`: every name empty, whatever
+  `sh_name` says), and since the repair of the finding `no-name-table` (fixes/C01-no-name-table.patch)
+  the library reports it as encoded.  This file keeps the description of the ONE shape of such a file
+  that is common in practice, for a theorem that asks for nothing but that shape
+  (`Props.C01.extnum_only`).
 -/
 import PyElf.Spec.ElfImage
 namespace PyElf.Spec.C01
 open PyElf PyElf.Spec
 
-/-- sections, `e_shstrndx` = SHN_UNDEF stored directly, section 0 carries no bytes, and every
-    section is nameless (`sh_name` = 0) -/
-def noNameTable (d : ElfDesc) : Bool :=
-  decide (0 < d.sections.length) && d.shstrndx == 0 && !d.xShstrndx &&
-  (match d.sections[0]? with
-   | some s0 => s0.body.isNone
-   | none => false) &&
-  d.sections.all (fun s => s.name.isEmpty && s.nameOff == 0)
-
-/-- `wfZ` without its two clauses about the name table (`namesOk`, reachable name offsets), for a
-    description without one -/
-def wfNoNames (env : Env) (d : ElfDesc) : Bool :=
-  let n := d.sections.length
-  let m := d.segments.length
-  noNameTable d &&
-  (d.cls == 32 || d.cls == 64) &&
-  machineClasses.contains d.mclass && d.cfgOk env &&
-  (match d.regions with
-   | some rs => regionsDisjoint (sortRegions rs)
-   | none => false) &&
-  d.escapesOk &&
-  decide ((d.S.Elf_Shdr.sizeof.getD 0) ≤ d.shentsize) &&
-  (m == 0 || decide ((d.S.Elf_Phdr.sizeof.getD 0) ≤ d.phentsize)) &&
-  decide (d.shoff + n * d.shentsize < 2 ^ 63) && decide (d.phoff + m * d.phentsize < 2 ^ 63) &&
-  decide (n < 2 ^ 32) && decide (m < 2 ^ 32) &&
-  decide (0 < d.shoff) && (m == 0 || decide (0 < d.phoff)) &&
-  (List.range n).all (fun i => d.secOkZ env 4 i)
-
 /-- The one shape of such a file that is common in practice: what the Linux kernel writes for a core
     dump with ≥ 0xffff segments (fs/binfmt_elf.c `fill_extnum_info`: `e_shnum` = 1, `e_shstrndx` =
     SHN_UNDEF, one SHT_NULL section header whose `sh_info` holds the real segment count) — and any
     file like it: exactly ONE section header, of type SHT_NULL and not flagged compressed, `e_shstrndx`
-    = SHN_UNDEF stored directly; header, segments, entry sizes, placement and escapes as in `wfZ`.
-    Nothing is asked of the section's name or body. -/
+    = SHN_UNDEF stored directly; header, segments, entry sizes and escapes as in `wfZ`.
+    Nothing is asked of the placement of the regions, nor of the section's `sh_name`, name or body. -/
 def extnumOnly (env : Env) (d : ElfDesc) : Bool :=
   let m := d.segments.length
   match d.sections with
@@ -57,9 +28,7 @@ def extnumOnly (env : Env) (d : ElfDesc) : Bool :=
     decide (d.shoff + d.shentsize < 2 ^ 63) && decide (d.phoff + m * d.phentsize < 2 ^ 63) &&
     decide (0 < d.shoff) && (m == 0 || decide (0 < d.phoff)) &&
     (match d.S.Elf_Shdr.decodeRaw env [] s0.raw with
-     | .ok h0 =>
-       typeIn h0 ["SHT_NULL"] && fieldNat h0 "sh_flags" &&& 0x800 == 0 &&
-       decide (fieldNat h0 "sh_offset" + s0.nameOff < 2 ^ 63)
+     | .ok h0 => typeIn h0 ["SHT_NULL"] && fieldNat h0 "sh_flags" &&& 0x800 == 0
      | .error _ => false)
   | _ => false
 
